@@ -2,7 +2,7 @@ SPECIFICATION Spec
 CONSTANTS
     Threads = {t1, t2, t3}
     Ops = {"enc", "dec"}
-    Args = {1, 2}
+    Args = {7}
     Calls = 2
     Scratch = FALSE
     F <- TermF
